@@ -207,6 +207,8 @@ type verifFake struct {
 	// releaseReceive is closed (a slow but healthy target): Receive of that batch blocks meanwhile
 	holdReceive    int
 	releaseReceive chan struct{}
+	// infoReplication: what INFO replication answers (a source node in the cmd harness)
+	infoReplication string
 }
 
 var verifErrReply = common.RedisError("OOM command not allowed when used memory > 'maxmemory'")
@@ -402,6 +404,9 @@ func (f *verifFake) apply(r verifReq) interface{} {
 		o.hasTTL, o.ttl = true, verifArgStr(r.args[1])
 		return int64(1)
 	case "info":
+		if len(r.args) > 0 && strings.ToLower(verifArgStr(r.args[0])) == "replication" {
+			return f.infoReplication
+		}
 		// (a client that collects the databases into a map visits them in no particular order: the
 		// listing order stands for that order - the engine iterates maps in insertion order)
 		s := "# Keyspace\r\n"
